@@ -49,7 +49,7 @@ Args:
         if solver is not None:
             if 'NP' in self._kwds: #XXX: instead use npts?
                 s.SetNestedSolver(solver, NP=self._kwds['NP'])
-            s.SetNestedSolver(solver)
+            else: s.SetNestedSolver(solver)
         s.id = self._kwds['id']
         s.SetDistribution(self._kwds['dist'])
         s.SetEvaluationLimits(self._kwds['maxiter'], self._kwds['maxfun'])
